@@ -361,3 +361,24 @@ def _(self: Obj(TrustProvisioningResponse), header: Union[_HDRK(1), _HDRK(2), _H
     ensures(self.status == _le(raw_data, 0), label="status-as-sent")
     ensures(len(self.values) == k - 1 and all(self.values[i] == _le(raw_data, 1 + i) for i in range(k - 1)), label="value-words-as-sent-in-order")
     modifies(self.header, self.raw_data, self.status, self.values)
+
+
+# ---- the 4-byte packet header, both directions ------------------------------------------------------------------------------------------------------
+from spsdk.mboot.exceptions import McuBootError as _MbErr  # noqa: E402
+
+inline("spsdk.mboot.commands:CmdHeader.__init__")
+
+
+@contract("spsdk.mboot.commands:CmdHeader.from_bytes")
+def _(cls: Const(CmdHeader), data: Bytes(lo=0, hi=64), offset: Const(0)) -> Obj(CmdHeader, tag=U8, flags=U8, reserved=U8, params_count=U8):
+    raises(_MbErr, len(data) < 4, label="shorter-than-a-header")
+    ensures((result.tag, result.flags, result.reserved, result.params_count) == (data[0], data[1], data[2], data[3]), label="tag-flags-reserved-count-as-sent")
+    pure()
+
+
+@lemma("mboot-packet-header-round-trips")
+def _(tag: U8, flags: U8, count: U8):
+    let(raw=CmdHeader(tag, flags, 0, count).to_bytes())
+    ensures(raw == bytes([tag, flags, 0, count]), label="four-bytes-in-order")
+    let(back=CmdHeader.from_bytes(raw))
+    ensures((back.tag, back.flags, back.reserved, back.params_count) == (tag, flags, 0, count), label="parse-inverts-export")
